@@ -984,7 +984,10 @@ func (dc *driverContextLigature) transition(driver stateTableDriver, entry table
 		cursor := dc.matchLength
 
 		actionIdx := entry.AsMorxLigature()
-		actionData := dc.table.LigatureAction[actionIdx:]
+		var actionData []uint32
+		if int(actionIdx) < len(dc.table.LigatureAction) { // else, invalid index: no action
+			actionData = dc.table.LigatureAction[actionIdx:]
+		}
 
 		ligatureIdx := 0
 		var action uint32
